@@ -205,7 +205,7 @@ def regen_facts():
     if rc != 0:
         return [("build", "go build gofacts", out[-800:])]
     facts = os.path.join(LEAN, "GfsGen", "Facts.lean")
-    new = facts + ".new"
+    new = facts + f".new.{os.getpid()}"
     rc, out = sh([os.path.join(BUILD, "gofacts"), REPO, new])
     if rc != 0:
         if os.path.exists(facts):
@@ -305,6 +305,11 @@ def main(argv):
 
     broken = []       # (kind, name, detail): proof obligations / ties that no longer check
     # 1. builds ---------------------------------------------------------------
+    # checks may be started in parallel; the build products are shared, so builds are serialised
+    import fcntl
+    os.makedirs(BUILD, exist_ok=True)
+    lockf = open(os.path.join(BUILD, ".buildlock"), "w")
+    fcntl.flock(lockf, fcntl.LOCK_EX)
     broken.extend(regen_facts())
     ok, out = build_harness()
     if not ok:
@@ -351,6 +356,8 @@ def main(argv):
             if rc != 0:
                 broken.append(("audit", "leanchecker", cout[-800:]))
     obligations = len(theorem_names(pid)) if os.path.exists(os.path.join(LEAN, "GfsProps", pid + ".lean")) else 0
+    fcntl.flock(lockf, fcntl.LOCK_UN)
+    lockf.close()
 
     if a.replay:
         return do_replay(pid, a.replay, rundir)
